@@ -470,6 +470,13 @@ def defuse(rc):
     from . import shared as _sh
     _sh.defuse_rule(rc, _sh.anchor_files("C06"))
 
+
+@rule("C06.data", "preprocess_data (run in front of every estimator, score and CI test) hands on the caller's values: copy, column-wise value-preserving casts", floor=2)
+def data_(rc):
+    from . import shared as _sh
+    _sh.preprocess_rule(rc)
+
+
 MUTANTS = [
     dict(kind="break", name="em-multiplicity-scalar-keys", file=EM, expect="C06.weighted",
          old="        if self.data.shape[1] == 1:\n            # groupby on a single column gives scalar keys; rows are looked up as tuples.\n            n_counts = {(key,): value for key, value in n_counts.items()}\n", new=""),
